@@ -251,7 +251,8 @@ func driveCmdRace(ci int, c *Case, rnd *rand.Rand) []recEvent {
 	if waitOnly {
 		maxCalls = 900
 	}
-	for call := 0; call < maxCalls && len(evs) < 700; call++ {
+	shown := 0 // calls that answered something else than "waiting" (polls do not count: a command that never resumes must be polled to the end)
+	for call := 0; call < maxCalls && shown < 400; call++ {
 		if pending && kind == kUnknown {
 			select {
 			case <-g.started:
@@ -323,6 +324,9 @@ func driveCmdRace(ci int, c *Case, rnd *rand.Rand) []recEvent {
 		obs, blocked := nextWithWatchdog(h, in.Choice, 5*time.Second)
 		t1 := time.Now()
 		k := obs.Out["k"]
+		if k != "waiting" {
+			shown++
+		}
 		if blocked {
 			return append(evs, recEvent{Ev: "next", ID: c.ID, R: 1, In: in, Obs: &obs, T0: ms(t0), T1: ms(t1)})
 		}
